@@ -297,8 +297,9 @@ class NFA:
         return out
 
 
-def difference_witness(n1, n2, limit=200000):
-    """shortest word accepted by exactly one of the two NFAs (as a list of letters, plus which side accepts it), or None when equivalent"""
+def difference_witness(n1, n2, limit=200000, want=None):
+    """shortest word accepted by exactly one of the two NFAs (as a list of letters, plus which side accepts it), or None when equivalent;
+    with want='first' / 'second' only words accepted by that side alone are returned"""
     s1, s2 = n1.closure([n1.start]), n2.closure([n2.start])
     seen = {(s1, s2)}
     todo = [(s1, s2, ())]
@@ -307,7 +308,7 @@ def difference_witness(n1, n2, limit=200000):
         a, b, word = todo[i]
         i += 1
         acc1, acc2 = bool(a & n1.accept), bool(b & n2.accept)
-        if acc1 != acc2:
+        if acc1 != acc2 and want in (None, "first" if acc1 else "second"):
             return list(word), ("first" if acc1 else "second")
         for letter in sorted(n1.letters(a) | n2.letters(b), key=repr):
             a2, b2 = n1.step(a, letter), n2.step(b, letter)
